@@ -1,6 +1,7 @@
 (* Shared case format of the Core correspondence runs (C01, C02, C04, C05, C06, C11): a build program, duration settings and
    what the implementation reported; plus the model's version of the same observations. *)
 From Coq Require Import ZArith List Bool.
+From Coq Require String.
 Import ListNotations.
 From QCE Require Import Base.Prelude Core.Model.
 From Gen Require Import Ident Classes.
@@ -21,7 +22,8 @@ Record oentry := { oe_cls : Z; oe_chans : list ChannelIdentifier; oe_s : Z; oe_e
                    oe_rel : option (RelationType * Z * Z); oe_tag : Z;
                    oe_cmd : Z;                  (* index of the top-level command whose add() returned this object, or -1 *)
                    oe_refpos : Z;               (* listing position of the reported referent, or -1 (none / a sub-circuit) *)
-                   oe_multi : list (Z * Z) }.   (* (start, end) of every member of a reported multi-link *)
+                   oe_multi : list (Z * Z);     (* (start, end) of every member of a reported multi-link *)
+                   oe_sig : String.string }.    (* canonical text of the operation's own public fields (class-specific arguments) *)
 (* one reported sub-circuit: start, duration, number of contained leaf operations, earliest start / latest end over them,
    start of its first (depth-1) operations *)
 Record ocomp := { oc_s : Z; oc_d : Z; oc_n : Z; oc_lo : Z; oc_hi : Z; oc_first : Z }.
@@ -46,7 +48,7 @@ Definition entry_to_o (env : denv) (e : entry) : oentry :=
   {| oe_cls := l_cls (e_leaf e); oe_chans := l_chans (e_leaf e); oe_s := e_start e; oe_e := e_end e;
      oe_d := resolve env (l_dur (e_leaf e)); oe_rel := None;
      oe_tag := match l_acq (e_leaf e) with Some (_, t) => t | None => -1 end;
-     oe_cmd := -1; oe_refpos := -1; oe_multi := [] |}.
+     oe_cmd := -1; oe_refpos := -1; oe_multi := []; oe_sig := String.EmptyString |}.
 
 (* get_sub_composite_operations (pre-order over the layered listing) with reported start and duration *)
 Fixpoint comps_op (env : denv) (o : op) : ctx -> list ocomp :=
